@@ -7,8 +7,10 @@ pub struct SimpleM {
     contours: Vec<u16>,
     instr: Vec<u8>,
     pts: Vec<(i16, i16, bool)>,
-    /// choices of the compact encoder: bit k of `enc` decides whether point k may use the
-    /// short/same forms; bit 31 enables repeat flags; bit 30 sets OVERLAP_SIMPLE on the first flag
+    /// seed of the byte encoder's choices: per point one of the equivalent encodings of its delta
+    /// (same-flag / short vector, also for 0 / int16), bit 31 repeat flags (runs split at
+    /// pseudo-random places, single flags with repeat count 0), bit 30 OVERLAP_SIMPLE on the first
+    /// flag, bit 29 the reserved flag bit 0x80 on some points
     enc: u32,
 }
 
@@ -35,16 +37,19 @@ pub struct CompPartM {
     scale: ScaleM,
     /// ROUND_XY_TO_GRID, USE_MY_METRICS, OVERLAP_COMPOUND, SCALED/UNSCALED_COMPONENT_OFFSET
     extra: u16,
+    /// WE_HAVE_INSTRUCTIONS on this component (the reader takes the flag from *any* component)
+    instr: bool,
+    /// reserved flag bits (0xE010) my byte encoder puts on this component; readers ignore them
+    reserved: u16,
 }
 
 #[derive(Clone, Debug, PartialEq)]
 pub struct CompM {
     bbox: [i16; 4],
     parts: Vec<CompPartM>,
-    /// Some = WE_HAVE_INSTRUCTIONS on the last component
-    instr: Option<Vec<u8>>,
-    /// reserved flag bits put on every component by my encoder (readers must ignore them)
-    reserved: u16,
+    /// instruction bytes; present in the encoding iff some component carries WE_HAVE_INSTRUCTIONS
+    /// (a model without any flag has no instructions)
+    instr: Vec<u8>,
 }
 
 #[derive(Clone, Debug, PartialEq)]
@@ -102,28 +107,35 @@ fn enc_simple_compact(m: &SimpleM) -> Vec<u8> {
     let mut xs = Buf::new();
     let mut ys = Buf::new();
     let (mut px, mut py) = (0i32, 0i32);
+    let pick = |k: usize, salt: u64| crate::engine::util::mix64((m.enc as u64) << 20 ^ (k as u64) << 2 ^ salt);
     for (k, p) in m.pts.iter().enumerate() {
-        let compact = (m.enc >> (k % 30)) & 1 == 1;
         let mut f = p.2 as u8;
         if k == 0 && (m.enc >> 30) & 1 == 1 {
             f |= 0x40; // OVERLAP_SIMPLE
+        }
+        if (m.enc >> 29) & 1 == 1 && pick(k, 3) % 5 == 0 {
+            f |= 0x80; // reserved
         }
         let dx = p.0 as i32 - px;
         let dy = p.1 as i32 - py;
         px = p.0 as i32;
         py = p.1 as i32;
-        if compact && dx == 0 {
+        // every delta has up to three equivalent encodings: "same" flag (0 only), short vector
+        // (|d| ≤ 255, 0 with either sign), int16
+        let cx = pick(k, 1) % 4;
+        if dx == 0 && cx < 2 {
             f |= 0x10;
-        } else if compact && dx.abs() <= 255 {
-            f |= 0x02 | if dx > 0 { 0x10 } else { 0 };
+        } else if dx.abs() <= 255 && cx < 3 {
+            f |= 0x02 | if dx > 0 || (dx == 0 && pick(k, 5) % 2 == 0) { 0x10 } else { 0 };
             xs.u8(dx.unsigned_abs() as u8);
         } else {
             xs.i16(dx as i16);
         }
-        if compact && dy == 0 {
+        let cy = pick(k, 2) % 4;
+        if dy == 0 && cy < 2 {
             f |= 0x20;
-        } else if compact && dy.abs() <= 255 {
-            f |= 0x04 | if dy > 0 { 0x20 } else { 0 };
+        } else if dy.abs() <= 255 && cy < 3 {
+            f |= 0x04 | if dy > 0 || (dy == 0 && pick(k, 6) % 2 == 0) { 0x20 } else { 0 };
             ys.u8(dy.unsigned_abs() as u8);
         } else {
             ys.i16(dy as i16);
@@ -133,11 +145,13 @@ fn enc_simple_compact(m: &SimpleM) -> Vec<u8> {
     if (m.enc >> 31) & 1 == 1 {
         let mut i = 0;
         while i < flags.len() {
+            // runs need not be maximal, and a single flag may carry a repeat count of 0
+            let limit = 1 + (pick(i, 7) % 6) as usize * (1 + (pick(i, 8) % 60) as usize);
             let mut run = 1;
-            while i + run < flags.len() && flags[i + run] == flags[i] && run < 256 {
+            while i + run < flags.len() && flags[i + run] == flags[i] && run < 256 && run < limit {
                 run += 1;
             }
-            if run > 1 {
+            if run > 1 || pick(i, 9) % 4 == 0 {
                 b.u8(flags[i] | 0x08).u8((run - 1) as u8);
             } else {
                 b.u8(flags[i]);
@@ -151,11 +165,11 @@ fn enc_simple_compact(m: &SimpleM) -> Vec<u8> {
     b.into_vec()
 }
 
-fn enc_composite(m: &CompM, reserved: u16) -> Vec<u8> {
+fn enc_composite(m: &CompM, with_reserved: bool) -> Vec<u8> {
     let mut b = Buf::new();
     b.i16(-1).i16(m.bbox[0]).i16(m.bbox[1]).i16(m.bbox[2]).i16(m.bbox[3]);
     for (i, p) in m.parts.iter().enumerate() {
-        b.u16(part_flags(m, i) | reserved).u16(p.gid);
+        b.u16(part_flags(m, i) | if with_reserved { p.reserved & 0xE010 } else { 0 }).u16(p.gid);
         match p.args {
             ArgM::U8(a, c) => b.u8(a).u8(c),
             ArgM::I8(a, c) => b.i8(a).i8(c),
@@ -175,8 +189,8 @@ fn enc_composite(m: &CompM, reserved: u16) -> Vec<u8> {
             }
         }
     }
-    if let Some(ins) = &m.instr {
-        b.u16(ins.len() as u16).bytes(ins);
+    if m.parts.iter().any(|p| p.instr) {
+        b.u16(m.instr.len() as u16).bytes(&m.instr);
     }
     b.into_vec()
 }
@@ -198,7 +212,8 @@ fn part_flags(m: &CompM, i: usize) -> u16 {
     };
     if i + 1 < m.parts.len() {
         f |= 0x0020;
-    } else if m.instr.is_some() {
+    }
+    if p.instr {
         f |= 0x0100;
     }
     f
@@ -208,7 +223,7 @@ fn enc_glyph(m: &GlyphM) -> Vec<u8> {
     match m {
         GlyphM::Empty => Vec::new(),
         GlyphM::Simple(s) => enc_simple_compact(s),
-        GlyphM::Composite(c) => enc_composite(c, c.reserved),
+        GlyphM::Composite(c) => enc_composite(c, true),
     }
 }
 
@@ -284,7 +299,9 @@ pub(crate) fn dec_glyph(d: &[u8]) -> Result<GlyphM, String> {
         Ok(GlyphM::Simple(SimpleM { bbox, contours, instr, pts, enc: 0 }))
     } else {
         let mut parts = Vec::new();
-        let mut instr_flag;
+        // allsorts' reader takes WE_HAVE_INSTRUCTIONS from any component (the OpenType text only
+        // says the instructions follow the last component); my reader does the same
+        let mut instr_flag = false;
         loop {
             let f = r16(take(2)?) as u16;
             let gid = r16(take(2)?) as u16;
@@ -309,19 +326,19 @@ pub(crate) fn dec_glyph(d: &[u8]) -> Result<GlyphM, String> {
             } else {
                 ScaleM::None
             };
-            parts.push(CompPartM { gid, args, scale, extra: f & EXTRA_MASK });
-            instr_flag = f & 0x0100 != 0;
+            parts.push(CompPartM { gid, args, scale, extra: f & EXTRA_MASK, instr: f & 0x0100 != 0, reserved: 0 });
+            instr_flag |= f & 0x0100 != 0;
             if f & 0x20 == 0 {
                 break;
             }
         }
         let instr = if instr_flag {
             let il = r16(take(2)?) as u16 as usize;
-            Some(take(il)?.to_vec())
+            take(il)?.to_vec()
         } else {
-            None
+            Vec::new()
         };
-        Ok(GlyphM::Composite(CompM { bbox, parts, instr, reserved: 0 }))
+        Ok(GlyphM::Composite(CompM { bbox, parts, instr }))
     }
 }
 
@@ -329,7 +346,7 @@ fn normal(m: &GlyphM) -> GlyphM {
     match m {
         GlyphM::Empty => GlyphM::Empty,
         GlyphM::Simple(s) => GlyphM::Simple(SimpleM { enc: 0, ..s.clone() }),
-        GlyphM::Composite(c) => GlyphM::Composite(CompM { reserved: 0, ..c.clone() }),
+        GlyphM::Composite(c) => GlyphM::Composite(CompM { parts: c.parts.iter().map(|p| CompPartM { reserved: 0, ..p.clone() }).collect(), ..c.clone() }),
     }
 }
 
@@ -376,7 +393,7 @@ fn glyph_value<'a>(m: &'a GlyphM) -> Glyph<'a> {
                     }
                 })
                 .collect(),
-            instructions: c.instr.as_deref().unwrap_or(&[]),
+            instructions: &c.instr,
             phantom_points: None,
         }),
     }
@@ -424,9 +441,12 @@ fn model_of(g: &Glyph<'_>) -> Result<GlyphM, String> {
                     Some(CompositeGlyphScale::Matrix(q)) => ScaleM::Matrix([q[0][0].raw_value(), q[0][1].raw_value(), q[1][0].raw_value(), q[1][1].raw_value()]),
                 };
                 has_instr |= p.flags.bits() & 0x0100 != 0;
-                parts.push(CompPartM { gid: p.glyph_index, args, scale, extra: p.flags.bits() & EXTRA_MASK });
+                parts.push(CompPartM { gid: p.glyph_index, args, scale, extra: p.flags.bits() & EXTRA_MASK, instr: p.flags.bits() & 0x0100 != 0, reserved: 0 });
             }
-            GlyphM::Composite(CompM { bbox: [b.x_min, b.y_min, b.x_max, b.y_max], parts, instr: if has_instr { Some(c.instructions.to_vec()) } else { None }, reserved: 0 })
+            if !has_instr && !c.instructions.is_empty() {
+                return Err(format!("{} instruction bytes without WE_HAVE_INSTRUCTIONS on any component", c.instructions.len()));
+            }
+            GlyphM::Composite(CompM { bbox: [b.x_min, b.y_min, b.x_max, b.y_max], parts, instr: c.instructions.to_vec() })
         }
     })
 }
@@ -451,7 +471,7 @@ fn check_glyph(m: &GlyphM, rec: &mut Rec) -> CaseResult {
     }
     match m {
         GlyphM::Composite(c) => {
-            let e = enc_composite(c, 0);
+            let e = enc_composite(c, false);
             if written != e {
                 return Err(fail("glyph:composite-bytes", diff(&written, &e)));
             }
@@ -494,9 +514,21 @@ fn check_glyph(m: &GlyphM, rec: &mut Rec) -> CaseResult {
         }
         GlyphM::Composite(c) => {
             rec.class("glyph:composite");
-            rec.class_if(c.instr.is_some(), "glyph:composite-instructions");
+            let flagged: Vec<usize> = c.parts.iter().enumerate().filter(|(_, p)| p.instr).map(|(i, _)| i).collect();
+            let n = c.parts.len();
+            rec.class(match flagged.as_slice() {
+                [] => "glyph:composite-instr-flag:none",
+                [i] if *i + 1 == n && n > 1 => "glyph:composite-instr-flag:last-only",
+                [0] if n > 1 => "glyph:composite-instr-flag:first-only",
+                [_] if n > 1 => "glyph:composite-instr-flag:middle-only",
+                [_] => "glyph:composite-instr-flag:single-component",
+                f if f.len() == n => "glyph:composite-instr-flag:all",
+                f if f.last() == Some(&(n - 1)) => "glyph:composite-instr-flag:several-incl-last",
+                _ => "glyph:composite-instr-flag:several-not-last",
+            });
+            rec.class_if(!flagged.is_empty() && c.instr.is_empty(), "glyph:composite-flag-with-0-instructions");
             rec.class_if(c.parts.iter().any(|p| matches!(p.scale, ScaleM::Matrix(_))), "glyph:2x2");
-            rec.class_if(c.reserved != 0, "glyph:reserved-flag-bits");
+            rec.class_if(c.parts.iter().any(|p| p.reserved & 0xE010 != 0), "glyph:reserved-flag-bits");
             rec.set_nontrivial(c.parts.len() >= 2);
         }
     }
@@ -582,14 +614,30 @@ fn composite_strategy() -> impl Strategy<Value = CompM> {
         1 => (bi16(), bi16()).prop_map(|(a, b)| ScaleM::XY(a, b)),
         1 => [bi16(), bi16(), bi16(), bi16()].prop_map(ScaleM::Matrix),
     ];
-    let part = (bu16(), args, scale, any::<u16>()).prop_map(|(gid, args, scale, e)| CompPartM { gid, args, scale, extra: e & EXTRA_MASK });
+    let part = (bu16(), args, scale, any::<u16>(), any::<bool>(), prop_oneof![3 => Just(0u16), 1 => any::<u16>().prop_map(|r| r & 0xE010)])
+        .prop_map(|(gid, args, scale, e, instr, reserved)| CompPartM { gid, args, scale, extra: e & EXTRA_MASK, instr, reserved });
     (
         [bi16(), bi16(), bi16(), bi16()],
         proptest::collection::vec(part, 1..5),
-        proptest::option::weighted(0.4, proptest::collection::vec(any::<u8>(), 0..6)),
-        prop_oneof![3 => Just(0u16), 1 => any::<u16>().prop_map(|r| r & 0xE010)],
+        // which components carry WE_HAVE_INSTRUCTIONS: none / first only / middle only / last only / all / independent
+        0u8..8,
+        prop_oneof![5 => proptest::collection::vec(any::<u8>(), 1..6), 1 => Just(Vec::new())],
     )
-        .prop_map(|(bbox, parts, instr, reserved)| CompM { bbox, parts, instr, reserved })
+        .prop_map(|(bbox, mut parts, pattern, instr)| {
+            let n = parts.len();
+            for (i, p) in parts.iter_mut().enumerate() {
+                p.instr = match pattern {
+                    0 | 1 => false,
+                    2 => i == 0,
+                    3 => i == n / 2 && n > 2 || (n <= 2 && i == 0),
+                    4 => i + 1 == n,
+                    5 => true,
+                    _ => p.instr,
+                };
+            }
+            let any = parts.iter().any(|p| p.instr);
+            CompM { bbox, parts, instr: if any { instr } else { Vec::new() } }
+        })
 }
 
 fn glyph_strategy() -> impl Strategy<Value = GlyphM> {
@@ -614,6 +662,9 @@ pub struct GlyfM {
     pad: u8,
     /// which glyphs to parse before writing (bit k ↔ glyph k)
     parse_mask: u32,
+    /// drop up to this many of the padding bytes that end the table: the last loca offset then
+    /// lies beyond the end of glyf, which the reader tolerates when the glyph itself is complete
+    cut_tail: u8,
 }
 
 fn enc_glyf_loca(m: &GlyfM) -> (Vec<u8>, Vec<u8>, Vec<u32>) {
@@ -632,6 +683,11 @@ fn enc_glyf_loca(m: &GlyfM) -> (Vec<u8>, Vec<u8>, Vec<u32>) {
         }
     }
     offs.push(glyf.len() as u32);
+    if m.cut_tail > 0 && m.glyphs.last().map_or(false, |g| *g != GlyphM::Empty) {
+        let used = offs[offs.len() - 2] as usize + enc_glyph(m.glyphs.last().unwrap()).len();
+        let cut = (glyf.len() - used).min(m.cut_tail as usize);
+        glyf.0.truncate(glyf.len() - cut);
+    }
     let mut loca = Buf::new();
     for o in &offs {
         if m.short {
@@ -687,10 +743,13 @@ fn check_glyf(m: &GlyfM, rec: &mut Rec) -> CaseResult {
             return Err(fail("glyf:record-count", format!("{} records for {} glyphs", t.records().len(), n)));
         }
         for k in 0..n {
-            let exp = &glyf[offs[k] as usize..offs[k + 1] as usize];
+            let beyond = offs[k + 1] as usize > glyf.len();
+            let exp = &glyf[offs[k] as usize..(offs[k + 1] as usize).min(glyf.len())];
             match &t.records()[k] {
-                GlyfRecord::Present { scope, .. } if scope.data() == exp && !exp.is_empty() => {}
+                GlyfRecord::Present { scope, .. } if scope.data() == exp && !exp.is_empty() && !beyond => {}
                 GlyfRecord::Parsed(Glyph::Empty(_)) if exp.is_empty() => {}
+                // the documented workaround: a range that runs past the table is parsed without a length limit
+                GlyfRecord::Parsed(_) if beyond => {}
                 other => return Err(fail("glyf:record", format!("glyph {}: {:?}, expected bytes {}", k, other, hexs(exp)))),
             }
             let g = t.get_parsed_glyph(k as u16).map_err(|e| fail("glyf:glyph-parse", format!("glyph {}: {:?}", k, e)))?;
@@ -738,6 +797,7 @@ fn check_glyf(m: &GlyfM, rec: &mut Rec) -> CaseResult {
     rec.class(if m.short { "glyf:short-loca" } else { "glyf:long-loca" });
     rec.class_if(m.glyphs.iter().any(|g| *g == GlyphM::Empty), "glyf:has-empty-glyph");
     rec.class_if(m.parse_mask != 0 && m.parse_mask != u32::MAX, "glyf:mixed-parsed-present");
+    rec.class_if(offs[n] as usize > glyf.len(), "glyf:last-loca-offset-beyond-table");
     rec.hash_bytes(&glyf);
     rec.hash_bytes(&loca);
     Ok(())
@@ -745,7 +805,7 @@ fn check_glyf(m: &GlyfM, rec: &mut Rec) -> CaseResult {
 
 fn glyf_strategy() -> impl Strategy<Value = GlyfM> {
     let g = prop_oneof![2 => Just(GlyphM::Empty), 4 => simple_strategy(10).prop_map(GlyphM::Simple), 2 => composite_strategy().prop_map(GlyphM::Composite)];
-    (proptest::collection::vec(g, 1..8), any::<bool>(), 0u8..4, prop_oneof![Just(0u32), Just(u32::MAX), any::<u32>()]).prop_map(|(mut glyphs, short, pad, parse_mask)| {
+    (proptest::collection::vec(g, 1..8), any::<bool>(), 0u8..4, prop_oneof![Just(0u32), Just(u32::MAX), any::<u32>()], prop_oneof![3 => Just(0u8), 1 => 1u8..4]).prop_map(|(mut glyphs, short, pad, parse_mask, cut_tail)| {
         // a simple glyph with zero contours and no points is 12 bytes of header: keep; but a
         // model glyph that encodes to nothing must be Empty
         for g in glyphs.iter_mut() {
@@ -753,6 +813,6 @@ fn glyf_strategy() -> impl Strategy<Value = GlyfM> {
                 *g = GlyphM::Empty;
             }
         }
-        GlyfM { glyphs, short, pad, parse_mask }
+        GlyfM { glyphs, short, pad, parse_mask, cut_tail }
     })
 }
